@@ -42,7 +42,7 @@ POSITIONS = ["noname-path", "noname-remote-path", "selector-error", "url-redirec
              "linkfile-name", "linkfile-abstract", "linkfile-path", "linkfile-urlpath", "linkfile-host", "map-desc", "map-sel",
              "map-url", "map-host", "wap-text", "search-item-path", "keywords-sidecar",
              "url-dirname", "url-filename", "linkfile-url-noscheme", "map-url-noscheme", "subject-qenc", "subject-b64",
-             "map-type", "linkfile-type", "cap-type"]
+             "map-type", "linkfile-type", "cap-type", "dir-search"]
 HTML_FORMS = ["http", "https", "wap", "waphdr"]
 GP_FORMS = ["gdollar", "gbang"]
 GP_POSITIONS = {"filename", "html-title", "subject", "subject-qenc", "subject-b64", "abstract-sidecar", "linkfile-name", "linkfile-abstract", "map-desc",
@@ -55,6 +55,8 @@ def _case(draw):
     forms = HTML_FORMS + (GP_FORMS if pos in GP_POSITIONS else [])
     if pos == "wap-text":
         forms = ["wap", "waphdr"]
+    if pos == "dir-search":
+        forms = ["http", "https", "wap", "waphdr"]
     return {"pos": pos, "payload": draw(payload_st), "form": draw(st.sampled_from(forms)), "n": draw(st.integers(0, 999)),
             "fill": draw(st.sampled_from([0, 0, 13]))}
 
@@ -95,6 +97,10 @@ def _fit(pos, p, fam):
         # the one-character item type, taken from content
         c = [ch for ch in p if ch in "\"<>&'`=;"]
         return c[0] if c else None
+    if pos == "dir-search":
+        # a search string sent RAW in the query of a directory request (a careless client does not percent-encode it)
+        p = re.sub(r"[ \t\r\n\0]", "", p)
+        return p or None
     if pos in ("selector-error", "url-redirect"):
         return p.replace("\0", "")
     return p
@@ -202,7 +208,12 @@ def _fetch(pos, v, n, form, fill=0):
             selb = world.b(target)
         if fam in ("gdollar", "gbang") and re.search(rb"[\t\r\n]", selb):
             return None
-        r = drive.serve(cfg, clients.encode(form, selb), tls=tls)
+        req = clients.encode(form, selb)
+        if pos == "dir-search":
+            line, rest = req.split(b"\r\n", 1)
+            meth, path, ver = line.split(b" ")
+            req = meth + b" " + path + b"?searchrequest=" + world.b(v) + b" " + ver + b"\r\n" + rest
+        r = drive.serve(cfg, req, tls=tls)
         return r
     finally:
         world.rmtree(base)
